@@ -235,7 +235,7 @@ def bits_equal(a, b):
 
 
 def describe(ev):
-    d = {k: ev[k] for k in ("op", "cls", "ot", "vt", "x", "y", "par", "k", "shape", "order") if k in ev}
+    d = {k: ev[k] for k in ("op", "cls", "ot", "vt", "x", "y", "par", "k", "shape", "order", "scratch") if k in ev}
     d["x_decimal"] = [fromhex(s) for s in ev["x"]]
     return d
 
@@ -272,6 +272,8 @@ def judge_event(ev, out):
         return
 
     lab = label(op, x, par, k, ev)
+    if ev.get("scratch") and op in ("LogAdd", "LogSub", "Sigmoid", "SmoothMax", "LogSmoothMax"):
+        lab += ",scratch:" + ev["scratch"]  # stale / reused receiver and scratch arguments are their own input class
     try:
         ref = reference(op, x, y, par, k, ev.get("shape"))
     except Exception as e:  # the table cannot evaluate the point: not judged, counted
